@@ -34,23 +34,26 @@ pub(crate) fn entity_created_on_server(
 
 pub(crate) fn entity_parented_on_server(
     mut server: ResMut<RenetServer>,
-    track: ResMut<SyncTrackerRes>,
+    mut track: ResMut<SyncTrackerRes>,
     query: Query<(Entity, &Parent), Changed<Parent>>,
 ) {
     for (e_id, p) in query.iter() {
+        let Some(&id) = track.entity_to_uuid.get(&e_id) else {
+            continue;
+        };
+        let Some(&pid) = track.entity_to_uuid.get(&p.get()) else {
+            continue;
+        };
+        if track.skip_network_parent_change(id, pid) {
+            continue;
+        }
         for client_id in server.clients_id().into_iter() {
-            let Some(id) = track.entity_to_uuid.get(&e_id) else {
-                continue;
-            };
-            let Some(pid) = track.entity_to_uuid.get(&p.get()) else {
-                continue;
-            };
             server.send_message(
                 client_id,
                 DefaultChannel::ReliableOrdered,
                 bincode::serialize(&Message::EntityParented {
-                    entity_id: *id,
-                    parent_id: *pid,
+                    entity_id: id,
+                    parent_id: pid,
                 })
                 .unwrap(),
             );
